@@ -21,6 +21,10 @@ FNS = [
     ("poll_flush", {"kind": "impl_fn", "self_ty": IMPL, "trait": "AsyncWrite", "name": "poll_flush"}),
     ("poll_shutdown", {"kind": "impl_fn", "self_ty": IMPL, "trait": "AsyncWrite", "name": "poll_shutdown"}),
     ("poll_read", {"kind": "impl_fn", "self_ty": IMPL, "trait": "AsyncRead", "name": "poll_read"}),
+    ("new", {"kind": "impl_fn", "self_ty": IMPL, "trait": "-", "name": "new"}),
+    ("from_stream", {"kind": "impl_fn", "self_ty": IMPL, "trait": "-", "name": "from_stream"}),
+    ("is_encrypted", {"kind": "impl_fn", "self_ty": IMPL, "trait": "-", "name": "is_encrypted"}),
+    ("from_secret", {"kind": "impl_fn", "self_ty": "CipherStream<S,Aes128Cfb8Enc,Aes128Cfb8Dec>", "trait": "-", "name": "from_secret"}),
 ]
 
 
